@@ -139,6 +139,14 @@ func VerifH_C02_go_api() {
 			}
 			vm.Run(42)
 			vm.Run([]byte("T"))
+			var nilScript *Script
+			vm.Run(nilScript)
+			vm.Eval(nilScript)
+			closed := make(chan func(), 1)
+			close(closed)
+			vm.Interrupt = closed
+			vm.Run("T; A")
+			vm.Interrupt = nil
 		case 21:
 			vm.Call("", nil)
 			vm.Call("// only a comment", nil)
